@@ -21,7 +21,7 @@ def engine_checks(case, eng):
 
 def run(ctx):
     prop = "C13"
-    gate, err = SP.prepare(prop)
+    gate, err = SP.prepare(prop, extra_targets=["props/ChessInstances.vo"])
     if err:
         return err
     violations, cov = [], {"samples": []}
